@@ -19,6 +19,8 @@ LEVEL_TEXT = ('Decides the shape of the loop, for all paths: each task drawn fro
               'edge; the map is never rebuilt or filtered; sequential and single-task paths use the same worker function; the '
               'capture clause stores the exception before any conditional re-raise. Behaviour under real executors and schedules '
               'is not decided.')
+TECHNIQUE += '; swallow clause for handlers (no path from a handler around the user function continues without a result), fresh-run-state rule (every per-run object of parproc - stop event, executor, pending map - is constructed inside the call, not taken from a memoised factory or module/class attribute)'
+LEVEL_TEXT += ' Added clauses: task lists built by append are followed; a run never observes the stop flag or pending state of an earlier run.'
 LEVEL_NOTE = 'Trusted: concurrent.futures.as_completed iterates over a snapshot of the futures given and yields each exactly once.'
 EXPLANATION = ('Static analysis of /repo sources, TatSu not imported. executor_pmap is executed abstractly with an "owed result" '
                'flag; every store/mutation of the pending map is enumerated.')
